@@ -1432,3 +1432,35 @@ impl Searcher {{
     r2, d2 = frag_record('traversal::Searcher::frag_prologue', 'src/searcher.rs', 'fn visit_dir / all statements in front of `let canonical_path = ..` (verbatim); falling through is signalled by Err(1)',
                          prologue, prologue, ['visited_dirs -> shim set'], 'the rest of visit_dir')
     return dict(functions=[r, r2], dropped=[d, d2])
+
+
+# --------------------------------------------------------------------------------------------------
+# check_file() and the ordered-buffer output loop of list_search_results(): verbatim on a shim world
+# --------------------------------------------------------------------------------------------------
+def unit_rowflow(inj, scratch):
+    frag_begin(inj)
+    s = src('src/searcher.rs', scratch)
+    it2 = s.fn('list_search_results', impl='Searcher')
+    # the block `else if self.is_buffered() { .. }` that follows the aggregate branch and precedes write_footer
+    foot = s.find_one(r'self\.results_writer\.write_footer\(', s.body_span(it2), what='list_search_results: write_footer')
+    blocks = [m for m in s.find_all(r'else\s+if\s+self\.is_buffered\(\)\s*\{', (it2['open'], foot.start()))]
+    if len(blocks) != 1:
+        raise AnchorLost(f'list_search_results: expected one `else if self.is_buffered() {{` output block, found {len(blocks)}')
+    o = blocks[0].end() - 1
+    obody = dedent(s.text[o:s.match_close(o) + 1])
+    text = f'''pub mod rowflow {{
+{H('frag_rowflow_prelude.rs')}
+impl Searcher {{
+    // ---- verbatim: the `else if self.is_buffered() {{ .. }}` output block of Searcher::list_search_results ----
+    pub fn frag_ordered_output(&mut self) -> io::Result<()> {{
+        {obody}
+        Ok(())
+    }}
+}}
+{H('frag_rowflow.kani.rs')}
+}}
+'''
+    inj.new_file(FRAG_FILE, text)
+    r2, d2 = frag_record('rowflow::Searcher::frag_ordered_output', 'src/searcher.rs', 'fn list_search_results / the `else if self.is_buffered() {..}` block in front of write_footer (verbatim)', obody, obody,
+                         ['output_buffer.values() -> the buffered rows in order; write! and std::io::stdout() -> recording stand-ins'], 'TopN ordering itself, the aggregate / grouped output branches')
+    return dict(functions=[r2], dropped=[d2])
